@@ -193,3 +193,14 @@ Theorem C11_general_example :
      end.
 Proof. exact (conj ex_gfile_hyps (conj ex_gfile_arith_valid ex_gfile_segments)). Qed.
 Print Assumptions C11_general_example.
+
+(* Non-vacuity of C11_succeeds_all on an ADV file. *)
+Theorem C11_general_example_adv :
+  validate ST ex_advfile = None /\ input_wf ST ex_advfile = true /\ is_adv_file (sf_batches ex_advfile) = true
+  /\ match segment ST ex_advfile with
+     | SOk cf df => map sb_num (sf_batches cf) = [4] /\ map sb_num (sf_batches df) = [4; 9]
+                    /\ sf_credit cf = 50 /\ sf_debit df = 75
+     | SErr _ => False
+     end.
+Proof. exact ex_advfile_segments. Qed.
+Print Assumptions C11_general_example_adv.
